@@ -12,8 +12,12 @@ Go source, see C18Tie).
   (`C18_roundtrip_delegation`);
 * `preFixPrefixes` is the code before the repairs; `C18_regression_F18a*` / `C18_regression_F18b*` keep the
   machine-checked counter-examples (prune and maturity queues replaced by copies of the opt-out queue, holds zeroed);
-* still open: the reverse lookup of a replaced key is not rebuilt (F-18c) — `C18_full` is the property's statement
-  for the core, `C18_full_fails` its counter-example on the repaired code, `C18_roundtrip_core_partial` what holds.
+* since the F-18c / F-18h repairs the reverse lookup of the key replaced during the running epoch is rebuilt
+  (`C18_roundtrip_operator_reverse_full`) and the validator set is exported with the stored keys
+  (`C18_roundtrip_validators`); `C18_regression_F18c` / `C18_regression_F18h` keep the pre-repair counter-examples;
+* still open (F-18i): the reverse lookup of a key whose PrevConsKey record was cleared at the end of its epoch and that
+  waits in the prune queue is in no export — `C18_full` is the property's statement for the core, `C18_full_fails` its
+  counter-example on the repaired code, `C18_roundtrip_core` what holds.
 Assets, oracle, mint and fee-distribution export code is not modelled: differential run on the real app only.
 -/
 namespace ExoVerif.Genesis
@@ -138,15 +142,32 @@ theorem C18_regression_F18a_queues_lost (bt h : Int) (s : Core) (hno : queueOf 3
 theorem C18_roundtrip_operator_forward (P : Prefixes) (bt h : Int) (s : Core) :
     (roundtrip P bt h s).curKeys = s.curKeys ∧ (roundtrip P bt h s).prevKeys = s.prevKeys := ⟨rfl, rfl⟩
 
-/-- the reverse index after the round trip holds exactly the current keys: it is reproduced iff it held nothing else,
-    i.e. no replaced-but-not-yet-pruned key was indexed (F-18c otherwise) -/
-theorem C18_roundtrip_operator_reverse_partial (P : Prefixes) (bt h : Int) (s : Core)
-    (hinv : s.reverse = s.curKeys.map (fun k => (k.2, k.1))) :
-    (roundtrip P bt h s).reverse = s.reverse := by
-  simp [roundtrip, init, exportDoc, hinv]
-
+/-- the reverse index after the round trip, for every state and configuration: the current keys and — when
+    SetAllPrevConsKeys rebuilds them — the keys replaced during the running epoch -/
 theorem C18_roundtrip_operator_reverse (P : Prefixes) (bt h : Int) (s : Core) :
-    (roundtrip P bt h s).reverse = s.curKeys.map (fun k => (k.2, k.1)) := rfl
+    (roundtrip P bt h s).reverse =
+      s.curKeys.map (fun k => (k.2, k.1)) ++ (if P.rebuildPrevReverse then s.prevKeys.map (fun k => (k.2, k.1)) else []) := rfl
+
+/-- Repaired code: a reverse index that covers the current keys and the keys replaced during the running epoch (every
+    replaced key until the epoch ends) is reproduced. -/
+theorem C18_roundtrip_operator_reverse_full (bt h : Int) (s : Core)
+    (hinv : s.reverse = s.curKeys.map (fun k => (k.2, k.1)) ++ s.prevKeys.map (fun k => (k.2, k.1))) :
+    (roundtrip codePrefixes bt h s).reverse = s.reverse := by
+  rw [C18_roundtrip_operator_reverse, hinv]; rfl
+
+/-- Pre-repair regression (F-18c): only the current keys were indexed after the import -/
+theorem C18_regression_F18c (bt h : Int) (s : Core) :
+    (roundtrip preFixPrefixes bt h s).reverse = s.curKeys.map (fun k => (k.2, k.1)) := by
+  rw [C18_roundtrip_operator_reverse]; simp [preFixPrefixes]
+
+/-! ## dogfood: the validator set -/
+
+/-- Repaired code: val_set carries the keys x/dogfood stores, the validator set is reproduced for every state -/
+theorem C18_roundtrip_validators (bt h : Int) (s : Core) : (roundtrip codePrefixes bt h s).vals = s.vals := rfl
+
+/-- what the pre-repair export did, for every state: each stored key replaced by its operator's current key -/
+theorem C18_regression_F18h_vals (bt h : Int) (s : Core) :
+    (roundtrip preFixPrefixes bt h s).vals = s.vals.map (fun v => (currentKeyOf s v.1, v.2)) := rfl
 
 /-! ## epochs -/
 
@@ -171,7 +192,8 @@ theorem C18_roundtrip_epochs (P : Prefixes) (bt h : Int) (s : Core)
 /-! ## the full statement for the core -/
 
 def coreEq (a b : Core) : Prop :=
-  a.unds = b.unds ∧ a.queues = b.queues ∧ a.curKeys = b.curKeys ∧ a.prevKeys = b.prevKeys ∧ a.reverse = b.reverse ∧ a.epochs = b.epochs
+  a.unds = b.unds ∧ a.queues = b.queues ∧ a.curKeys = b.curKeys ∧ a.prevKeys = b.prevKeys ∧ a.reverse = b.reverse ∧
+  a.vals = b.vals ∧ a.epochs = b.epochs
 
 /-- states as the keepers produce them: queue entries under the three prefixes in store order, hold count = number of
     maturity entries listing the record, epochs started -/
@@ -182,12 +204,15 @@ def Inv (s : Core) : Prop :=
 /-- C18 for the core: every reachable state is reproduced by export + init -/
 def C18_full : Prop := ∀ (bt h : Int) (s : Core), Inv s → coreEq (roundtrip codePrefixes bt h s) s
 
-/-- one undelegation held by x/dogfood with its maturity entry, a pending prune, and one replaced consensus key -/
+/-- one undelegation held by x/dogfood with its maturity entry; operator op1 replaced its key twice: "olderCons" in an
+    earlier epoch (record cleared, waiting in the prune queue), "oldCons" in the running epoch (still the validator's
+    key until the epoch ends) -/
 def witness : Core :=
   { unds := [⟨"rec1", 13, 1000000, 1⟩],
-    queues := [⟨5, 4, "oldConsAddr", []⟩, ⟨6, 4, "m1", ["rec1"]⟩],
+    queues := [⟨5, 4, "olderCons", []⟩, ⟨6, 4, "m1", ["rec1"]⟩],
     curKeys := [("op1", "newCons")], prevKeys := [("op1", "oldCons")],
-    reverse := [("newCons", "op1"), ("oldCons", "op1")], epochs := [] }
+    reverse := [("newCons", "op1"), ("oldCons", "op1"), ("olderCons", "op1")],
+    vals := [("oldCons", 100)], epochs := [] }
 
 theorem C18_witness_inv : Inv witness := by
   refine ⟨?_, ?_, ?_, ?_⟩
@@ -196,36 +221,45 @@ theorem C18_witness_inv : Inv witness := by
   · intro e he; simp [witness] at he
   · intro u hu; simp [witness] at hu; subst hu; decide
 
-/-- still refuted on the repaired code: the reverse lookup of the replaced key is lost (F-18c) -/
+/-- still refuted on the repaired code: the reverse lookup of the key waiting to be pruned is lost (F-18i) -/
 theorem C18_full_fails : ¬ C18_full := by
   intro hfull
   have := (hfull 0 0 witness C18_witness_inv).2.2.2.2.1
   revert this
   decide
 
-/-- the repaired code reproduces the witness's queues and its hold count … -/
+/-- the repaired code reproduces the witness's queues, its hold count, its validator set and the reverse lookup of the
+    key replaced in the running epoch … -/
 example : (roundtrip codePrefixes 0 0 witness).queues = witness.queues := by decide
 example : (roundtrip codePrefixes 0 0 witness).unds = witness.unds := by decide
-/-- … but not the reverse lookup of the old key -/
-example : (roundtrip codePrefixes 0 0 witness).reverse = [("newCons", "op1")] := by decide
-/-- pre-repair regression on the same witness: both queue entries and the hold were lost -/
+example : (roundtrip codePrefixes 0 0 witness).vals = witness.vals := by decide
+/-- … but not the reverse lookup of the key that waits in the prune queue -/
+example : (roundtrip codePrefixes 0 0 witness).reverse = [("newCons", "op1"), ("oldCons", "op1")] := by decide
+/-- pre-repair regressions on the same witness: both queue entries and the hold were lost (F-18a/b), the replaced key
+    no longer resolved to its operator (F-18c), the validator was exported under the operator's new key (F-18h) -/
 theorem C18_regression_witness :
     (roundtrip preFixPrefixes 0 0 witness).queues = [] ∧
-    (roundtrip preFixPrefixes 0 0 witness).unds = [⟨"rec1", 13, 1000000, 0⟩] := by decide
+    (roundtrip preFixPrefixes 0 0 witness).unds = [⟨"rec1", 13, 1000000, 0⟩] ∧
+    (roundtrip preFixPrefixes 0 0 witness).reverse = [("newCons", "op1")] ∧
+    (roundtrip preFixPrefixes 0 0 witness).vals = [("newCons", 100)] := by decide
 
-/-- What holds for the code as it is: every invariant state whose reverse index covers current keys only (no
-    replaced key waiting to be pruned) is reproduced exactly — undelegations with their hold counts, all three dogfood
-    queues, key indexes, epochs. -/
-theorem C18_roundtrip_core_partial (bt h : Int) (s : Core) (hinv : Inv s)
-    (hrev : s.reverse = s.curKeys.map (fun k => (k.2, k.1))) :
+theorem C18_regression_F18h : ∃ s : Core, Inv s ∧ (roundtrip preFixPrefixes 0 0 s).vals ≠ s.vals :=
+  ⟨witness, C18_witness_inv, by decide⟩
+
+/-- What holds for the code as it is: every invariant state whose reverse index covers the current keys and the keys
+    replaced during the running epoch (no replaced key of an earlier epoch still waiting to be pruned) is reproduced
+    exactly — undelegations with their hold counts, all three dogfood queues, key indexes, validator set, epochs. -/
+theorem C18_roundtrip_core (bt h : Int) (s : Core) (hinv : Inv s)
+    (hrev : s.reverse = s.curKeys.map (fun k => (k.2, k.1)) ++ s.prevKeys.map (fun k => (k.2, k.1))) :
     coreEq (roundtrip codePrefixes bt h s) s := by
   obtain ⟨_, ho, hep, hh⟩ := hinv
   exact ⟨(C18_roundtrip_delegation bt h s).mpr hh, C18_roundtrip_dogfood bt h s ho, rfl, rfl,
-    C18_roundtrip_operator_reverse_partial _ bt h s hrev, C18_roundtrip_epochs _ bt h s hep⟩
+    C18_roundtrip_operator_reverse_full bt h s hrev, rfl, C18_roundtrip_epochs _ bt h s hep⟩
 
 def heldState : Core :=
   { unds := [⟨"rec1", 13, 1000000, 1⟩, ⟨"rec2", 14, 5, 1⟩], queues := [⟨3, 7, "opA", []⟩, ⟨5, 4, "oldConsAddr", []⟩, ⟨6, 4, "m1", ["rec1", "rec2"]⟩],
-    curKeys := [("op1", "newCons")], prevKeys := [], reverse := [("newCons", "op1")], epochs := [] }
+    curKeys := [("op1", "newCons")], prevKeys := [("op1", "oldCons")], reverse := [("newCons", "op1"), ("oldCons", "op1")],
+    vals := [("oldCons", 100)], epochs := [] }
 
 example : Inv heldState := by
   refine ⟨?_, by unfold StoreOrdered; decide, ?_, ?_⟩
@@ -233,8 +267,11 @@ example : Inv heldState := by
   · intro e he; simp [heldState] at he
   · intro u hu; simp [heldState] at hu; rcases hu with rfl | rfl <;> decide
 
+example : heldState.reverse = heldState.curKeys.map (fun k => (k.2, k.1)) ++ heldState.prevKeys.map (fun k => (k.2, k.1)) := by decide
+
 example : (roundtrip codePrefixes 0 0 heldState).unds = heldState.unds ∧
     (roundtrip codePrefixes 0 0 heldState).queues = heldState.queues ∧
-    (roundtrip codePrefixes 0 0 heldState).reverse = heldState.reverse := by decide
+    (roundtrip codePrefixes 0 0 heldState).reverse = heldState.reverse ∧
+    (roundtrip codePrefixes 0 0 heldState).vals = heldState.vals := by decide
 
 end ExoVerif.Genesis
